@@ -57,7 +57,8 @@ def run(ctx):
         race_tier(ctx)
     vlib.merge_parts(ctx, "part A: cases = controller scripts over a fixed set of goroutines (programs of Set/Value calls and observer loops behind common start gates; "
                      "Fill racing Wait/WaitContext and cancel; concurrent first calls of a Lazy whose f is gated and counted) run against the real code; each recorded history "
-                     "must be accepted by the LTS model (some schedule produces it; every quiescence point is a model state with nothing enabled) and satisfy the history oracle; "
+                     "must be accepted by the LTS model (some schedule produces it; every quiescence point is a model state with nothing enabled; watch: matcher on canonical "
+                     "states, cross-checked against the unreduced matcher on the smaller scenarios) and satisfy the history oracle; "
                      "part B: cases = operation sequences run on xsync.Map[int,V] and on a raw sync.Map for V = int and V = error (nil and non-nil), every method on absent, "
                      "present and zero/nil-valued keys; both must agree exactly and equal the Coq models; distinct = hash of script+configuration; "
                      "non-trivial = (watch) >= 1 Set and >= 1 Value result, (future) a waiter and a Fill or cancel, (lazy) >= 2 calls, (xmap) >= 3 ops")
